@@ -1,10 +1,11 @@
 import RV.C09.Spec
+import RV.C09.FloatModel
 import RV.Base.Proto
 /-
   C09 driver.  Strings cross the protocol as comma-separated code points (`-` = empty).
 
     lex <dt> <cps> [d|t|o]               (normalize default / explicit True / rdflib.NORMALIZE_LITERALS off)
-                                         → lex|ill₀|val₀|valid₁|back₁|n1same|idem|ill₁|val₁[|spell…]
+                                         → lex|ill₀|val₀|valid₁|back₁|n1same|idem|ill₁|val₁|eq(l₁, reread l₁)[|spell…]
         l₀ = Literal(s, dt, normalize=False), l₁ = Literal(s, dt), n₁ = l₀.normalize(), n₂ = n₁.normalize()
     py <pyspec>                          → py|dt|valid|back[|spell]
         l = Literal(v); valid = lexical form in the XSD lexical space (Lean recogniser); back = value of re-reading it
@@ -14,6 +15,8 @@ import RV.Base.Proto
         new = Literal(old) / Literal(old, datatype=dt); ref = Literal(str(new), datatype=new.datatype, normalize=False)
     eqpy <lit> <pyspec>                  → eqpy|1|0|NotImplemented|neq      Literal.eq / neq (plain Python object)
     pyd <dt|-> <pyspec>                  → like py, for Literal(v, datatype=dt)
+    flex double|float <cps> [d|t|o]      → the `lex` line for the two floating-point datatypes (values: nan | inf | -inf | f:<neg>:<m>:<e> = ±m·2^e)
+    fpy nan|inf|-inf|<neg> <m> <e>       → py|double|valid|back for Literal(float)
     skip                                 → unmodelled   (the harness declares the case outside the model)
   pyspec: int i | bool 0|1 | dec 0|1 coeff exp | str cps | date y m d | time h mi s us tz|- |
           datetime y m d h mi s us tz|- | td us | dur years months us
@@ -164,7 +167,11 @@ def lexLine (st : St) (d : Dt) (s : Str) (nz : Bool := true) : String :=
         | some n2 =>
           let back := (mkLex (some d) l1.lex false).map (·.value)
           let backS := match back with | some v => canon v | none => "raise"
-          let base := s!"lex|{showIll l0.ill}|{canon l0.value}|{b01 (Spec.validLex d l1.lex)}|{backS}|{b01 (n1.lex == l1.lex)}|{b01 (n2.lex == n1.lex)}|{showIll l1.ill}|{canon l1.value}"
+          -- value-space equality with the (term-equal) literal built from its own lexical form
+          let eqB := match mkLex (some d) l1.lex false with
+            | some r => (match l1.eq r with | some true => "1" | some false => "0" | none => "TypeError")
+            | none => "raise"
+          let base := s!"lex|{showIll l0.ill}|{canon l0.value}|{b01 (Spec.validLex d l1.lex)}|{backS}|{b01 (n1.lex == l1.lex)}|{b01 (n2.lex == n1.lex)}|{showIll l1.ill}|{canon l1.value}|{eqB}"
           if st.spell then s!"{base}|{showCps l0.lex}|{showCps l1.lex}|{showCps n1.lex}|{showCps n2.lex}" else base
         | none => "lex|raise"
       | none => "lex|raise"
@@ -213,8 +220,72 @@ def relitLine (st : St) (old : LitR) (dt : Option Dt) : String :=
         | none => "relit|raise"
       | none => "relit|raise"
 
+/-! ### xsd:double / xsd:float -/
+
+def canonF : Option FVal → String
+  | none => "None"
+  | some .nan => "nan"
+  | some (.inf false) => "inf"
+  | some (.inf true) => "-inf"
+  | some (.fin n m e) => s!"f:{b01 n}:{m}:{e}"
+
+/-- exponent parts are kept short (the model computes 10^|exponent| exactly) -/
+def floatFragment (s : Str) : Bool :=
+  asciiOk s && (s.dropWhile Spec.notExpChar).length ≤ 6
+
+def flexLine (st : St) (s : Str) (nz : Bool) : String :=
+  if !floatFragment s then "unmodelled"
+  else
+    let v := pyFloat s
+    let illS := if v.isSome then "F" else "T"
+    -- lexical form after normalisation (`_float_to_xsd(value)`), `none` = the printer found no digits
+    let norm : Option Str := match v with | some x => floatToXsd x | none => some s
+    match norm with
+    | none => "lex|raise"
+    | some n1 =>
+      let l1 := if nz then n1 else s
+      let back := pyFloat l1
+      let n2 : Option Str := match v with | some x => floatToXsd x | none => some n1
+      let eqB := match v, back with
+        | some x, some y => b01 (x.pyEq y)
+        | none, none => "1"
+        | _, _ => "0"
+      let base := s!"lex|{illS}|{canonF v}|{b01 (Spec.doubleLex l1)}|{canonF back}|{b01 (n1 == l1)}|{b01 (n2 == some n1)}|{illS}|{canonF v}|{eqB}"
+      if st.spell then s!"{base}|{showCps s}|{showCps l1}|{showCps n1}|{showCps n1}" else base
+
+def fspec? : List String → Option FVal
+  | ["nan"] => some .nan
+  | ["inf"] => some (.inf false)
+  | ["-inf"] => some (.inf true)
+  | [n, m, e] => do
+    let m ← nat? m; let e ← int? e
+    if n = "1" then pure (.fin true m e) else if n = "0" then pure (.fin false m e) else none
+  | _ => none
+
+def fpyLine (st : St) (v : FVal) : String :=
+  match floatToXsd v with
+  | none => "py|raise"
+  | some l =>
+    let base := s!"py|double|{b01 (Spec.doubleLex l)}|{canonF (pyFloat l)}"
+    if st.spell then s!"{base}|{showCps l}" else base
+
 def step (st : St) : List String → St × String
   | ["skip"] => (st, "unmodelled")
+  | "fpy" :: r =>
+    match fspec? r with
+    | some v => (st, fpyLine st v)
+    | none => (st, "bad-op")
+  | ["flex", d, s] =>
+    match cps? s with
+    | some s => if d = "double" || d = "float" then (st, flexLine st s true) else (st, "bad-op")
+    | none => (st, "bad-op")
+  | ["flex", d, s, mode] =>
+    match cps? s with
+    | some s =>
+      if !(d = "double" || d = "float") then (st, "bad-op")
+      else if mode = "o" then (st, flexLine st s false) else if mode = "t" || mode = "d" then (st, flexLine st s true)
+      else (st, "bad-op")
+    | none => (st, "bad-op")
   | ["spell", b] => if b = "1" then (⟨true⟩, "ok") else if b = "0" then (⟨false⟩, "ok") else (st, "bad-op")
   | ["lex", d, s] =>
     match dt? d, cps? s with
